@@ -821,7 +821,11 @@ where
                     Ok(Some(Ev::Scalar { value, style, .. }))
                         if scalar_is_nullish(value, style) =>
                     {
-                        let _ = self.src.next();
+                        // Consuming the null-like document can surface a deferred reader error.
+                        if let Err(e) = self.src.next() {
+                            self.finished = true;
+                            return Some(Err(e));
+                        }
                         continue;
                     }
                     Ok(Some(_)) => {
@@ -1195,7 +1199,11 @@ where
                     Ok(Some(Ev::Scalar { value, style, .. }))
                         if scalar_is_nullish(value, style) =>
                     {
-                        let _ = self.src.next();
+                        // Consuming the null-like document can surface a deferred reader error.
+                        if let Err(e) = self.src.next() {
+                            self.finished = true;
+                            return Some(Err(e));
+                        }
                         continue;
                     }
                     Ok(Some(_)) => {
@@ -1923,7 +1931,11 @@ where
                     Ok(Some(Ev::Scalar { value, style, .. }))
                         if scalar_is_nullish(value, style) =>
                     {
-                        let _ = self.src.next();
+                        // Consuming the null-like document can surface a deferred reader error.
+                        if let Err(e) = self.src.next() {
+                            self.finished = true;
+                            return Some(Err(e));
+                        }
                         continue;
                     }
                     Ok(Some(_)) => {
